@@ -507,14 +507,15 @@ func (p *parser) expr() (*Expr, error) {
 			break
 		}
 		var trig []*Expr
-		if p.isOp("{") {
+		for p.isOp("{") {
 			p.next()
+			grp := &Expr{Op: "trigger"}
 			for {
 				te, err := p.expr()
 				if err != nil {
 					return nil, err
 				}
-				trig = append(trig, te)
+				grp.Args = append(grp.Args, te)
 				if p.isOp(",") {
 					p.next()
 					continue
@@ -524,6 +525,7 @@ func (p *parser) expr() (*Expr, error) {
 			if err := p.expect("}"); err != nil {
 				return nil, err
 			}
+			trig = append(trig, grp)
 		}
 		if err := p.expect("::"); err != nil {
 			return nil, err
